@@ -41,6 +41,18 @@ class Delivery:
         self.size = max(1, size)
         self.delays = delays
         self.script = list(script or [])
+        # frag 6: cyclic, choice-free script (used by sweeps over a pre-drawn scenario): sizes and delays are cycled
+        self.cyc_sizes: list[int] = []
+        self.cyc_delays: list[int] = []
+        self._ci = 0
+        self._cd = 0
+
+    @classmethod
+    def cyclic(cls, sizes: list[int], delays: list[int]) -> "Delivery":
+        d = cls(frag=6)
+        d.cyc_sizes = [max(1, x) for x in sizes] or [1 << 30]
+        d.cyc_delays = list(delays) or [0]
+        return d
 
     @classmethod
     def draw(cls, world: World, tag: str = "link", max_delay: int = 8) -> "Delivery":
@@ -76,6 +88,7 @@ class HalfPipe:
         self.pump_scheduled = False
         self.reader_closed = False
         self.on_visible: Callable[[], None] | None = None  # peer actor hook
+        self.on_room: Callable[[], None] | None = None  # writer-side hook: the reader consumed bytes (room may have grown)
         self.visible_log: list[tuple[float, int]] = []  # (time, cumulative visible) for oracles
         self.stalled = False
 
@@ -107,8 +120,13 @@ class HalfPipe:
         if not self.flight and not (self.fin_written and not self.fin_visible):
             return
         self.pump_scheduled = True
-        d = self.delivery.delays
-        delay = d[self.world.choose("dly", len(d))] if len(d) > 1 else d[0]
+        dl = self.delivery
+        if dl.frag == 6:
+            delay = dl.cyc_delays[dl._cd % len(dl.cyc_delays)]
+            dl._cd += 1
+        else:
+            d = dl.delays
+            delay = d[self.world.choose("dly", len(d))] if len(d) > 1 else d[0]
         self.world.after(delay / 64.0, self._pump)
 
     def _pump(self) -> None:
@@ -128,6 +146,9 @@ class HalfPipe:
                 k = min(n, 1 + self.world.choose("frag", dl.size))
             elif dl.frag == 4:
                 k = min(n, dl.script.pop(0)) if dl.script else n
+            elif dl.frag == 6:
+                k = min(n, dl.cyc_sizes[dl._ci % len(dl.cyc_sizes)])
+                dl._ci += 1
             else:
                 return
             self.deliver(k)
@@ -195,6 +216,8 @@ class HalfPipe:
         data = bytes(self.rx[:n])
         del self.rx[: len(data)]
         self.total_read += len(data)
+        if data and self.on_room is not None:
+            self.on_room()
         return data
 
     def time_visible(self, nbytes: int) -> float | None:
@@ -625,6 +648,7 @@ class SimNet:
         self.default_delivery: Callable[[str], Delivery] | None = None
         self.socket_fault: Callable[[int, int, int], OSError | None] | None = None  # EMFILE on creation
         self.on_accept_pair: Callable[[SimSocket, SimSocket], None] | None = None
+        self.dgram_connect_fault: Callable[[SimSocket, tuple], OSError | None] | None = None  # e.g. ENETUNREACH from connect() on UDP
         self.unrouted: list[tuple] = []
         self.dgram_log: list[tuple] = []  # (time, src, dst, data) actually delivered to a socket queue
         self.rst_on_close_with_unread = True
@@ -705,6 +729,10 @@ class SimNet:
     def connect(self, sock: SimSocket, address) -> None:
         """client-side connect() of a SimSocket owned by the library"""
         if sock._type == socket.SOCK_DGRAM:
+            if self.dgram_connect_fault is not None:  # (S6, additive) synchronous connect() error of a datagram socket
+                e = self.dgram_connect_fault(sock, tuple(address))
+                if e is not None:
+                    raise e
             if sock.sockname is None:
                 self.bind(sock, None)
             sock.peername = tuple(address)
@@ -830,6 +858,10 @@ class SimSelector(selectors._BaseSelectorImpl):  # type: ignore[name-defined,mis
         self.max_hold = 2
         self.calls = 0
         self.max_calls = 400_000
+        # coincidence bias (DESIGN §2.3 item 4): called as align(timeout) right before this selector really blocks
+        # (nothing ready); `timeout` is what the caller passed in (loop: distance to its next timer; None = forever).
+        # The hook may re-time pending world events (see vsim.harness.AlignedFeed); it must not touch the selector.
+        self.align: Callable[[float | None], None] | None = None
 
     def _fileobj_lookup(self, fileobj):  # accept closed SimSockets on unregister like the real one does
         try:
@@ -869,6 +901,8 @@ class SimSelector(selectors._BaseSelectorImpl):  # type: ignore[name-defined,mis
                 w.zero_wait()
         elif not ready and not woken:
             w.positive_wait()
+            if self.align is not None:
+                self.align(timeout)
             remaining = timeout
             while True:
                 before = w.now
